@@ -38,6 +38,16 @@ func runC03(p *Prog, r *Report) {
 	if want("C03.8") {
 		ruleLevelsImmutable(p, r, "C03.8")
 	}
+	if want("C03.10") {
+		// entries above the view's sequence number are invisible to both scan directions
+		ruleDbIterGuards(p, r, "C03.10")
+	}
+	if want("C03.9") {
+		// a pinned version keeps its tables on storage however long it is held: the reference loop
+		// (shared with C07.2) removes a table only at zero references and adds a long-held
+		// version's references before applying later deltas
+		ruleDeleters(p, r, "C03.9")
+	}
 	if want("C03.7") {
 		ruleRetrySnapshotsAreCopies(p, r, "C03.7")
 	}
